@@ -134,6 +134,15 @@ CHECKS.update({
             TRUST_HTTP + ' The flask_login stand-in only affects how an authenticated session is recognised; lesser roles use the repository\'s own AnonymousUser.', '4.15'),
 })
 
+CHECKS.update({
+    'C16': ('fault_enumeration',
+            'fault-injection monitor at the HTTP boundary and the parser entry point: status / unhandled-exception signal on every fuzzed request, wall watchdog + deterministic sys.monitoring line/jump budget for termination, tracemalloc bound for the parser, sequence monitor over error-injection histories sharing a client session',
+            'Route table x registered option names x 26 type-confusion values (singly, with enabling options, and in sampled pairs) x streams with '
+            'missing pieces; MP4 mutation operators at every box of init/media/whole files into Mp4Atom.load (eager, lazy) and into '
+            'upload -> index -> serve; {v,a,t,m}err x failures x interleaved request sequences judged for exactly-as-asked.',
+            TRUST_HTTP + ' A wall-clock timeout alone never produces a verdict.', '4.16'),
+})
+
 NOT_YET = {}
 
 
